@@ -19,6 +19,7 @@ type Recipe struct {
 	Test       string   `json:"test"`
 	Expect     string   `json:"expect"` // "pass" (fixed defect: must not reproduce) | "fail" (known finding: must reproduce)
 	Status     string   `json:"status"`
+	Quick      bool     `json:"quick,omitempty"` // also run in the quick tier (cheap bounded stand-ins)
 	What       string   `json:"what"`
 	Extra      []string `json:"extra_overlay,omitempty"` // "repoRelPath=recipeRelPath"
 	Rewrite    []struct {
